@@ -891,7 +891,10 @@ class CmpVisEdgeRotation
             {
                 return u->rotationLessThan(_lastPt, v);
             }
-            return u < v;
+            // Orthogonal edges come first.  The dummy edges keep their
+            // order in the list (the sort is stable), which, unlike their
+            // addresses, is the same in every run.
+            return u->isOrthogonal() && !v->isOrthogonal();
         }
     private:
         const VertInf *_lastPt;
